@@ -2,7 +2,7 @@
 EXTENDS Integers, TLC
 VARIABLES K, m, left, right, steps
 G == INSTANCE Gait
-Init == \E k \in {8, 12, 16, 20} : \E inc \in 1..(k - 1) : G!Init(k, inc)
+Init == \E k \in {8, 12, 16, 20} : \E inc \in 0..(3 * k) : G!Init(k, inc)
 Next == steps < 3 * K /\ G!Step
 Spec == Init /\ [][Next]_<<K, m, left, right, steps>>
 InRange == G!InRange
